@@ -179,6 +179,25 @@ NameUses(nm) == <<
 >>
 NNameUses == 11
 
+\* -------------------------------------------------------------- litnames
+\* bindings that are NAMED like the literals (nil, true, false): a literal still denotes itself; the binding is
+\* reachable as a key of its map
+N_nil == <<110, 105, 108>>
+N_true == <<116, 114, 117, 101>>
+N_false == <<102, 97, 108, 115, 101>>
+YesNo(cnd) == [t |-> "if", branches |-> <<[c |-> cnd, body |-> <<T(<<121>>)>>], [c |-> [t |-> "else"], body |-> <<T(<<110>>)>>]>>]
+LitNameUses == <<
+  <<T(<<91>>), Ob(Lit(Nil)), T(<<124>>), Ob(Lit(Bool(TRUE))), T(<<124>>), Ob(Lit(Bool(FALSE))), T(<<93>>)>>,
+  <<YesNo(Lit(Nil)), YesNo(Lit(Bool(FALSE))), YesNo(Lit(Bool(TRUE))), [t |-> "if", neg |-> TRUE, branches |-> <<[c |-> Lit(Nil), body |-> <<T(<<117>>)>>]>>]>>,
+  <<[t |-> "case", e |-> Lit(Nil), pre |-> <<>>, whens |-> <<[vals |-> <<Lit(S(<<78>>))>>, body |-> <<T(<<98>>)>>], [vals |-> <<Lit(Nil)>>, body |-> <<T(<<119>>)>>],
+                                                             [else |-> TRUE, vals |-> <<>>, body |-> <<T(<<101>>)>>]>>]>>,
+  <<[t |-> "assign", name |-> <<122>>, e |-> Lit(Nil)], T(<<91>>), Ob(Var(<<122>>)), T(<<93>>), [t |-> "assign", name |-> <<122>>, e |-> Lit(Bool(TRUE))], Ob(Var(<<122>>))>>,
+  <<Ob(Ix(Var(<<109>>), Lit(S(N_nil)))), T(<<124>>), Ob(Ix(Var(<<109>>), Lit(S(N_true))))>>,
+  <<YesNo([t |-> "cmp", op |-> "==", a |-> Lit(Nil), b |-> Lit(S(<<78>>))]), YesNo([t |-> "cmp", op |-> "==", a |-> Var(A), b |-> Lit(Nil)]),
+    YesNo([t |-> "and", a |-> Lit(Bool(TRUE)), b |-> Lit(Nil)])>>,
+  <<Ob(Fl(Lit(Nil), "default", <<Lit(S(<<100>>))>>)), Ob(Fl(Lit(S(<<120>>)), "append", <<Lit(Bool(TRUE))>>))>>
+>>
+
 \* ----------------------------------------------------------------- space
 \* fixed programs whose meaning must not depend on the whitespace inside tags
 SpaceProgs == <<
@@ -207,6 +226,7 @@ Cases ==
   \cup [g : {"litws"}, k : 0..4]
   \cup [g : {"rng"}, lo : (0 - 1)..3, hi : (0 - 2)..4, use : 1..NRngUses, asvar : BOOLEAN]
   \cup [g : {"names"}, nm : 1..Len(NameU), use : 1..NNameUses]
+  \cup [g : {"litnames"}, use : 1..Len(LitNameUses), strict : BOOLEAN]
   \cup [g : {"space"}, q : 1..Len(SpaceProgs), sp : 1..Len(Spacings), tight : BOOLEAN]
 
 ManyArgs(f) == [k \in 1..(DocArgs(f) + 2) |-> Lit(IntV(1))]
@@ -229,6 +249,7 @@ ProgOf(x) ==
             [] x.form = "assign" -> <<[t |-> "assign", name |-> <<122>>, e |-> Lit(LitU[x.v])], T(<<91>>), Ob(Var(<<122>>)), T(<<93>>)>>)
     [] x.g = "rng" -> RngUses(x)[x.use]
     [] x.g = "names" -> NameUses(NameU[x.nm])[x.use]
+    [] x.g = "litnames" -> LitNameUses[x.use]
     [] x.g = "litws" -> WsProg(x.k)
     [] x.g = "space" -> SpaceProgs[x.q]
 
@@ -241,8 +262,10 @@ EnvOf2(x) ==
     [] x.g = "litws" -> <<>>
     [] x.g = "rng" -> << <<A, Arr(<<IntV(7)>>)>>, <<Lo, IntV(x.lo)>>, <<Hi, IntV(x.hi)>> >>
     [] x.g = "names" -> << <<NameU[x.nm], S(<<86>>)>>, <<<<109>>, MapV(<< <<NameU[x.nm], S(<<80, 80>>)>> >>)>> >>
+    [] x.g = "litnames" -> << <<N_nil, S(<<78>>)>>, <<N_true, S(<<84>>)>>, <<N_false, S(<<70>>)>>,
+                              <<<<109>>, MapV(<< <<N_nil, S(<<80>>)>>, <<N_true, S(<<81>>)>> >>)>> >>
     [] x.g = "space" -> PipeEnv(1)
-CxOf(x) == IF x.g = "look" /\ x.strict THEN [Cx0 EXCEPT !.strict = TRUE] ELSE Cx0
+CxOf(x) == IF x.g \in {"look", "litnames"} /\ x.strict THEN [Cx0 EXCEPT !.strict = TRUE] ELSE Cx0
 Res(x) == Render(CxOf(x), ProgOf(x), EnvOf(EnvOf2(x)))
 
 Init == c \in Cases
@@ -289,6 +312,8 @@ RangeLaw ==
     /\ (c.use = 6 /\ c.hi < c.lo) => Res(c).out = <<55>>
 \* a name denotes its binding, whatever the name looks like
 NamesLaw == c.g = "names" => Res(c).status = "ok"
+\* (in strict mode the object that prints the literal nil is the one error)
+LitNamesLaw == c.g = "litnames" => (Res(c).status = "ok" \/ (c.strict /\ c.use \in {1, 4}))
 BadIsError == c.g = "bad" => Res(c).status = "error"
 SpacingIrrelevant == TRUE     \* the reference works on trees: spelling cannot matter to it by construction
 
@@ -300,6 +325,7 @@ IdOf(x) ==
     [] x.g = "litws" -> "litws-" \o ToString(x.k)
     [] x.g = "lit" -> "lit-" \o ToString(x.v) \o "-" \o x.form
     [] x.g = "names" -> "names-" \o ToString(x.nm) \o "-" \o ToString(x.use)
+    [] x.g = "litnames" -> "litnames-" \o ToString(x.use) \o "-" \o ToString(x.strict)
     [] x.g = "rng" -> "rng-" \o ToString(x.lo) \o "-" \o ToString(x.hi) \o "-" \o ToString(x.use) \o "-" \o ToString(x.asvar)
     [] x.g = "space" -> "space-" \o ToString(x.q) \o "-" \o ToString(x.sp) \o "-" \o ToString(x.tight)
 EmitCase == PrintT(ToJson(
